@@ -71,12 +71,20 @@ pub uninterp spec fn rsa_pss_sign_rel(pkcs8: Seq<u8>, msg: Seq<u8>, sig: Seq<u8>
 pub broadcast axiom fn ax_rsa_correct(pkcs8: Seq<u8>, msg: Seq<u8>, sig: Seq<u8>)
     requires rsa_pkcs8_ok(pkcs8), #[trigger] rsa_pss_sign_rel(pkcs8, msg, sig),
     ensures rsa_pss_verify(rsa_pk_of(pkcs8), msg, sig);
+// concatenation of a list of byte strings (HKDF "info" is passed as a list of pieces)
+pub open spec fn concat_all(ps: Seq<Seq<u8>>) -> Seq<u8> decreases ps.len() {
+    if ps.len() == 0 { Seq::empty() } else { concat_all(ps.drop_last()) + ps.last() }
+}
+pub broadcast proof fn lemma_concat_all_1(ps: Seq<Seq<u8>>)
+    requires ps.len() == 1
+    ensures #[trigger] concat_all(ps) == ps[0]
+{ reveal_with_fuel(concat_all, 2); assert(concat_all(ps.drop_last()) =~= Seq::<u8>::empty()); assert(concat_all(ps) =~= ps[0]); }
 // CSPRNG: the only way to establish fresh_draw is ring::rand::SecureRandom::fill
 pub uninterp spec fn fresh_draw(bytes: Seq<u8>) -> bool;
 
 pub broadcast group group_crypto {
     ax_blake2b_len, ax_xchacha_len, ax_xchacha_invol, ax_aesctr_len, ax_aesctr_invol, ax_hmac_len, ax_hkdf_len,
-    ax_aead_len, ax_aead_open_seal, ax_ed25519_len, ax_ed25519_correct, ax_p384_compress_len, ax_p384_pk_of_sk, ax_p384_correct, ax_rsa_correct
+    ax_aead_len, ax_aead_open_seal, ax_ed25519_len, ax_ed25519_correct, ax_p384_compress_len, ax_p384_pk_of_sk, ax_p384_correct, ax_rsa_correct, lemma_concat_all_1
 }
 }
 }
